@@ -95,13 +95,6 @@ func main() {
 		order = append(order, p)
 	}
 	sort.Slice(order, func(a, b int) bool { return order[a].Pkg.Path() < order[b].Pkg.Path() })
-	t1 := time.Now()
-	if err := sess.InitPackages(order); err != nil {
-		fmt.Fprintln(os.Stderr, err)
-		os.Exit(4)
-	}
-	initMs := time.Since(t1).Milliseconds()
-
 	if *stubList != "" {
 		for _, ent := range strings.Split(*stubList, ",") {
 			kv := strings.SplitN(ent, "=", 2)
@@ -118,6 +111,13 @@ func main() {
 			interp.SetStub(kv[0], repl)
 		}
 	}
+	t1 := time.Now()
+	if err := sess.InitPackages(order); err != nil {
+		fmt.Fprintln(os.Stderr, err)
+		os.Exit(4)
+	}
+	initMs := time.Since(t1).Milliseconds()
+
 	if *serve {
 		serveLoop(sess, spkgs)
 		return
